@@ -1249,7 +1249,11 @@ func (fr *Frame) lookup(x *ssa.Lookup) {
 		m := fr.val(x.X).T
 		k := fr.val(x.Index).T
 		has := ex.mapHas(fr.curMem, t, m, k)
-		ex.assume(implies(fmt.Sprintf("(= %s 0)", m), not(has)), fr.curReach) // a nil map has no keys
+		if ex.sweepSafe {
+			// a nil map has no keys (stated for the safety sweep only, where "found in the map, so the map is not nil"
+			// guards a later write; in the contract checks the extra disjunction slows one lock invariant from 0.1 s to 20 s)
+			ex.assume(implies(fmt.Sprintf("(= %s 0)", m), not(has)), fr.curReach)
+		}
 		v := ite(has, ex.mapVal(fr.curMem, t, m, k), ex.D.zero(t.Elem()))
 		vs := ex.D.sortOf(t.Elem())
 		if x.CommaOk {
